@@ -444,6 +444,22 @@ func (m *Model) RunLayout(s *Sink, rule string) {
 				if mu, isMu := in.(*ssa.MapUpdate); isMu && strings.HasSuffix(fieldPathOf(mu.Map), ".reserves") && strings.HasSuffix(fieldPathOf(mu.Key), ".Name.Value") {
 					ok = true
 				}
+				// ... or under the Value of the very name node that becomes the statement's Name
+				if mu, isMu := in.(*ssa.MapUpdate); isMu && strings.HasSuffix(fieldPathOf(mu.Map), ".reserves") {
+					if ld, isLd := mu.Key.(*ssa.UnOp); isLd {
+						if fa, isFA := ld.X.(*ssa.FieldAddr); isFA && fieldName(fa.X.Type(), fa.Field) == "Value" {
+							for _, b2 := range prs.Blocks {
+								for _, in2 := range b2.Instrs {
+									if st, isSt := in2.(*ssa.Store); isSt && st.Val == fa.X {
+										if fa2, isFA2 := st.Addr.(*ssa.FieldAddr); isFA2 && fieldName(fa2.X.Type(), fa2.Field) == "Name" {
+											ok = true
+										}
+									}
+								}
+							}
+						}
+					}
+				}
 			}
 		}
 		check(fnKey(prs)+"|reserves are registered by name at any nesting depth", m.Pos(prs.Pos()), ok,
